@@ -220,8 +220,50 @@ def gen_scenario(seed, profile=None):
         if rng.random() < profile.get("p_fault", 0.15):
             st["fault"] = {"kind": "trace", "at": rng.randint(1, 120), "gran": rng.choice(["call", "line"])}
         steps.append(st)
+    _revisit_after_category_edit(seed, specs, filters, steps)
     return {"id": "c14-%d" % seed, "seed": seed, "property": PROP, "worlds": specs, "mat": mat,
             "filters": filters, "steps": steps}
+
+
+CATEGORIES_KEY = "public.openTypeCategories"
+
+
+def _revisit_after_category_edit(seed, specs, filters, steps):
+    """Some histories end with one PropagateAnchorsFilter object invoked twice on the same
+    font, the caller having edited the font's ``public.openTypeCategories`` dict *in place*
+    in between (a composite with anchors of its own becomes a mark - the filter then leaves
+    it alone).  'No state from one invocation to the next' must survive that: the second
+    result has to equal a fresh object's on the same, edited, font.  All choices come from a
+    private PRNG, the shared stream (and every other history) is left as it was."""
+    prng = random.Random("c14-revisit:%d" % seed)
+    if prng.random() >= 0.15:
+        return
+    cands = [wi for wi, sp in enumerate(specs) if "masters" in sp]
+    if not cands:
+        return
+    wi = cands[prng.randrange(len(cands))]
+    sp = specs[wi]
+    g0 = sp["masters"][0]["glyphs"]
+    comps = sorted(n for n, g in g0.items() if g["components"] and not g["contours"] and n != ".notdef")
+    if not comps:
+        return
+    with_anchor = [n for n in comps if g0[n]["anchors"]]
+    n = (with_anchor or comps)[prng.randrange(len(with_anchor or comps))]
+    for m in sp["masters"]:
+        for lay in [m["glyphs"]] + list((m.get("layers") or {}).values()):
+            g = lay.get(n)
+            if g is not None and not g["anchors"]:
+                g["anchors"].append(["top", (g["width"] // 2) or 100, 800])
+        cats = m.setdefault("lib", {}).setdefault(CATEGORIES_KEY, {})
+        if not cats:
+            cats[sorted(g0)[0]] = "base"
+        cats.pop(n, None)
+    filters.append({"cls": "PropagateAnchorsFilter"})
+    fi = len(filters) - 1
+    font = prng.randrange(len(sp["masters"]))
+    steps.append({"op": "filter_call", "f": fi, "world": wi, "font": font, "glyphset": "copy"})
+    steps.append({"op": "filter_call", "f": fi, "world": wi, "font": font, "glyphset": "copy",
+                  "cat_edit": {n: "mark"}})
 
 
 # ----------------------------------------------------------------- execution
@@ -306,6 +348,20 @@ def _do_filter_call(filt, w, st, fault=None):
     tf = seams.TraceFault(fault) if fault else None
     ret = None
     fired = None
+    # the caller's own in-place edit of the categories dict before this invocation; it is
+    # taken back afterwards so that later steps (and their fresh-world references) see the
+    # world as generated
+    undo = []
+    edit = st.get("cat_edit")
+    if edit:
+        cats = font.lib.get(CATEGORIES_KEY)
+        if cats is None:
+            font.lib[CATEGORIES_KEY] = dict(edit)
+            undo.append(None)
+        else:
+            for k_, v_ in edit.items():
+                undo.append((k_, cats[k_]) if k_ in cats else (k_,))
+                cats[k_] = v_
     try:
         if tf is not None:
             with tf:
@@ -315,6 +371,14 @@ def _do_filter_call(filt, w, st, fault=None):
         outcome = "ok"
     except Exception as e:  # noqa: BLE001
         outcome = "exc:" + type(e).__name__
+    finally:
+        for u in undo:
+            if u is None:
+                font.lib.pop(CATEGORIES_KEY, None)
+            elif len(u) == 2:
+                font.lib[CATEGORIES_KEY][u[0]] = u[1]
+            else:
+                font.lib[CATEGORIES_KEY].pop(u[0], None)
     if tf is not None:
         fired = tf.fired
     after = snap_gs(gs) if gs is not None else {g.name: snap_glyph(g, full=False) for g in font}
